@@ -3,7 +3,8 @@
 //
 // For node contexts {root, object property, array item} x {integer, float,
 // string, boolean, null, empty object, object, empty array, array, type
-// reference `@t`} and rule sets over the 19 rule names (15 literal-valued rules
+// reference `@t`; the degenerate examples `0`, `0.0`, `""` and `@e` (a reference
+// to the empty object type)} and rule sets over the 19 rule names (15 literal-valued rules
 // of NewConstraintFromRule + or, enum, allOf + one unknown name) with in-range
 // and out-of-range parameters:
 //
@@ -36,6 +37,15 @@
 //	    enum with foreign rules, unknown, near-miss, duplicated and misplaced rules); the
 //	    example matches the anchor, so nothing but the consistency conditions themselves
 //	    (memberOK) decides; the rules inside the members are reordered as well.
+//	(7) DEGENERATE COMPANIONS: every applicability cell (rule x node kind x position) is generated with the
+//	    values that give a rule nothing to do — zero bounds (min / max / minLength / maxLength / minItems /
+//	    maxItems / precision: 0), the empty pattern, empty lists (enum: [], or: [], allOf: []), the empty name
+//	    (type / additionalProperties / allOf: ""), false flags — on ordinary and on degenerate examples (0, 0.0,
+//	    "", {}, []), alone and next to a rule that decides nothing (cellStream). allOf names every shape of a
+//	    type (allOfParams): non-empty objects, the empty object `{}` (two spellings), the empty object with a
+//	    rule, the object that is empty but inherits, several of them mixed, the same one twice, a scalar, the
+//	    empty array, an unknown name, no name — on every node kind at every position. A rule that does not
+//	    apply to the kind of the node is rejected however little it would do.
 //
 // CALIBRATION DECISIONS — where the statement is silent or ambiguous the
 // unchanged tree was asked by experiment; every decision is a rule-level
@@ -76,9 +86,10 @@
 //	[C13] `enum` applies to scalar kinds only.
 //	[C14] String length is counted in bytes of the token between the quotes (the
 //	      example string used here is ASCII without escapes, so every reading agrees).
-//	[C15] additionalProperties accepts true / false / a JSON type name / a user type name.
-//	[C16] allOf accepts a single type name or a list of names of object types; no
-//	      restriction on companions other than applicability (objects only).
+//	[C15] additionalProperties accepts true / false / a JSON type name / the name of a KNOWN user type
+//	      (of any kind); not the empty name.
+//	[C16] allOf accepts a single type name or a non-empty list of names of known types whose root is an
+//	      object; no restriction on companions other than applicability (objects only).
 //	[C17] With type: "any" the example's kind is irrelevant.
 //	[C18] rules inapplicable to a `null` example stay inapplicable even with
 //	      nullable: true.
@@ -100,6 +111,13 @@
 //	[C23] A rule name is the JSON string between the quotes after unquoting (escapes resolved),
 //	      blanks around the quoted or bare name do not count; blanks inside the quotes do. A bare
 //	      name is taken literally (no escapes). The same holds for or / enum / allOf and inside members.
+//	[C24] What allOf inherits must fit the node: the property names of the node and of all named types are
+//	      pairwise different (so a non-empty type named twice is rejected, the empty one is not), and the
+//	      additionalProperties rules of the node and of the named types name the same type — true / false /
+//	      "any" name none and agree with each other (AdditionalProperties.IsEqual; the statement is silent).
+//	[C25] An `or` list has at least two members; a type rule / type reference names a known type ("" and an
+//	      unknown `@name` are none); `enum: []` is a legal list that no example is a member of (a null
+//	      example with nullable: true obeys it by [C19]; as an `or` member it admits what [C21] says).
 //
 // KNOWN FINDING recognised structurally: K-C08-ref-type-or — on a `@t` example node
 // a user-written `type` rule bypasses the duplicate check: the rules {type: "@t" (the
@@ -139,9 +157,38 @@ type ctx struct {
 }
 
 var positions = []string{"root", "prop", "item"}
-var values = []string{"int", "float", "str", "bool", "null", "obj0", "obj", "arr0", "arr", "ref"}
+var values = []string{"int", "float", "str", "bool", "null", "obj0", "obj", "arr0", "arr", "ref", "int0", "float0", "str0", "refe"}
 
-const strExample = "a@b.cc" // 6 bytes, a valid email, not a date
+// The DEGENERATE examples int0 (`0`), float0 (`0.0`), str0 (`""`) stand next to the ordinary ones the way the
+// empty containers obj0 / arr0 stand next to obj / arr: same node kind, but every bound that holds for them is a
+// zero bound and every length is zero. refe (`@e`) is the reference to the empty object type next to ref (`@t`, a scalar type).
+
+// refType: the type named by a reference example ("" = the example is no reference).
+func refType(v string) string {
+	switch v {
+	case "ref":
+		return "@t"
+	case "refe":
+		return "@e"
+	}
+	return ""
+}
+
+// strExampleOf: the string example between the quotes. "a@b.cc": 6 bytes, a valid email, not a date.
+func strExampleOf(v string) string {
+	if v == "str0" {
+		return ""
+	}
+	return "a@b.cc"
+}
+
+// fracDigits: the number of fraction digits of the float examples.
+func fracDigits(v string) int64 {
+	if v == "float0" {
+		return 1
+	}
+	return 2
+}
 
 // exampleToken: the example value as written in the schema (one-line values).
 func exampleToken(v string) string {
@@ -150,8 +197,12 @@ func exampleToken(v string) string {
 		return "5"
 	case "float":
 		return "2.25"
-	case "str":
-		return `"` + strExample + `"`
+	case "str", "str0":
+		return `"` + strExampleOf(v) + `"`
+	case "int0":
+		return "0"
+	case "float0":
+		return "0.0"
 	case "bool":
 		return "true"
 	case "null":
@@ -160,14 +211,65 @@ func exampleToken(v string) string {
 		return "{}"
 	case "arr0":
 		return "[]"
-	case "ref":
-		return "@t"
+	case "ref", "refe":
+		return refType(v)
 	}
 	return ""
 }
 
-// addedTypes are attached to every schema.
-var addedTypes = [][2]string{{"@t", "7"}, {"@o", "{\n  \"z\": 1\n}"}}
+// utype: a user type that a schema may name, and what the specification needs to know about it.
+type utype struct {
+	name, text string
+	kind       string   // the JSON kind of the root of the type
+	object     bool     // … it is an object
+	keys       []string // its property names
+	ap         string   // its additionalProperties rule ("" = none)
+}
+
+// addedTypes: the types named by a schema text are attached to it (see check). The table holds every SHAPE of a type
+// that allOf / a reference can name: a scalar (@t), a non-empty object (@o, @o2; @ok shares its key with the `obj`
+// example), the empty object in two spellings (@e, @e2), the empty object that carries a rule (@er), the empty array
+// (@a), the object that is empty in itself but inherits a property (@oz). "@nope" is never added: the unknown type.
+var addedTypes = []utype{
+	{name: "@t", text: "7", kind: "integer"},
+	{name: "@o", text: "{\n  \"z\": 1\n}", kind: "object", object: true, keys: []string{"z"}},
+	{name: "@o2", text: "{\n  \"y\": \"s\"\n}", kind: "object", object: true, keys: []string{"y"}},
+	{name: "@ok", text: "{\n  \"k\": 2\n}", kind: "object", object: true, keys: []string{"k"}},
+	{name: "@e", text: "{}", kind: "object", object: true},
+	{name: "@e2", text: "{\n}", kind: "object", object: true},
+	{name: "@er", text: "{} // {additionalProperties: true}", kind: "object", object: true, ap: "true"},
+	{name: "@a", text: "[]", kind: "array"},
+	{name: "@oz", text: "{} // {allOf: \"@o\"}", kind: "object", object: true, keys: []string{"z"}},
+}
+
+const unknownType = "@nope"
+
+func typeByName(n string) (utype, bool) {
+	for _, t := range addedTypes {
+		if t.name == n {
+			return t, true
+		}
+	}
+	return utype{}, false
+}
+
+// namedTypes: the types of the table whose name occurs in the text (a name that is a prefix of the one written is
+// attached too — an unrelated type more, which changes nothing).
+func namedTypes(text string) []utype {
+	all := text
+	for _, t := range addedTypes { // the types named by a named type (the table lists a type after the types it names)
+		if strings.Contains(text, t.name) {
+			all += " " + t.text
+		}
+	}
+	var out []utype
+	for _, t := range addedTypes {
+		if strings.Contains(all, t.name) {
+			out = append(out, t)
+		}
+	}
+	return out
+}
 
 // schemaText prints the schema of context c with annotation ann ("" = none).
 func schemaText(c ctx, ann string) string {
@@ -205,10 +307,11 @@ type oalt struct {
 	ruleSet bool   // written as a rule-set {type: …} rather than a bare name
 	hasMin  bool
 	// an enum rule-set member {enum: [...]}: it has no JSON kind of its own
-	enum     bool
-	items    []string
-	nullable bool  // the member also says nullable: true
-	min      int64 // scaled by 100
+	enum      bool
+	emptyEnum bool // {enum: []}
+	items     []string
+	nullable  bool  // the member also says nullable: true
+	min       int64 // scaled by 100
 	// a GENERATED rule-set member (see genOr): its consistency is judged by memberOK; for the
 	// admission of the example it is never needed, because a generated `or` always holds an
 	// anchor member of exactly the example's kind without further rules.
@@ -231,6 +334,8 @@ type param struct {
 	alts  []oalt
 	bad   bool // or: a member rule-set is inconsistent in itself (enum next to a foreign rule / a scalar type, or !memberOK)
 	items []string
+	names []string // allOf: the named types
+	list  bool     // allOf: written as a list
 	mem   []member // or: generated members (the text is rendered from them, each inner rule with its own spelling)
 }
 
@@ -454,37 +559,59 @@ func strParam(s string) param { return param{text: `"` + s + `"`, s: s} }
 // params lists the parameter choices of a rule in context c; in-range choices first.
 func params(name string, c ctx) []param {
 	switch name {
-	case "min":
-		if c.val == "float" {
-			return []param{numParam("2", 200), numParam("2.25", 225), numParam("3", 300)}
+	case "min": // the zero bound is a choice for every kind of node
+		switch c.val {
+		case "float":
+			return []param{numParam("2", 200), numParam("2.25", 225), numParam("0", 0), numParam("3", 300)}
+		case "int0", "float0":
+			return []param{numParam("-1", -100), numParam("0", 0), numParam("0.0", 0), numParam("1", 100)}
 		}
-		return []param{numParam("4", 400), numParam("5", 500), numParam("6", 600)}
+		return []param{numParam("4", 400), numParam("5", 500), numParam("0", 0), numParam("6", 600)}
 	case "max":
-		if c.val == "float" {
-			return []param{numParam("3", 300), numParam("2.25", 225), numParam("2", 200)}
+		switch c.val {
+		case "float":
+			return []param{numParam("3", 300), numParam("2.25", 225), numParam("2", 200), numParam("0", 0)}
+		case "int0", "float0":
+			return []param{numParam("1", 100), numParam("0", 0), numParam("0.0", 0), numParam("-1", -100)}
 		}
-		return []param{numParam("6", 600), numParam("5", 500), numParam("4", 400)}
+		return []param{numParam("6", 600), numParam("5", 500), numParam("4", 400), numParam("0", 0)}
 	case "exclusiveMinimum", "exclusiveMaximum", "optional", "nullable", "const":
 		return boolParams()
 	case "minLength":
+		if c.val == "str0" {
+			return []param{cntParam(0), cntParam(1)}
+		}
 		return []param{cntParam(0), cntParam(6), cntParam(7)}
 	case "maxLength":
-		return []param{cntParam(7), cntParam(6), cntParam(5)}
-	case "regex":
-		return []param{strParam("^a"), strParam(".*"), strParam("^z")}
+		if c.val == "str0" {
+			return []param{cntParam(0), cntParam(1)}
+		}
+		return []param{cntParam(7), cntParam(6), cntParam(5), cntParam(0)}
+	case "regex": // "" is the empty pattern: it matches every string
+		if c.val == "str0" {
+			return []param{strParam(""), strParam(".*"), strParam("^$"), strParam("^a")}
+		}
+		return []param{strParam("^a"), strParam(".*"), strParam(""), strParam("^z")}
 	case "precision":
-		return []param{cntParam(2), cntParam(3), cntParam(1)}
+		if c.val == "float0" {
+			return []param{cntParam(1), cntParam(2), cntParam(0)}
+		}
+		return []param{cntParam(2), cntParam(3), cntParam(1), cntParam(0)}
 	case "minItems":
 		return []param{cntParam(0), cntParam(2), cntParam(3)}
 	case "maxItems":
 		return []param{cntParam(3), cntParam(2), cntParam(1), cntParam(0)}
 	case "additionalProperties":
-		return []param{{text: "true", b: true, s: "true"}, {text: "false", s: "false"}, strParam("string"), strParam("@t")}
+		return []param{{text: "true", b: true, s: "true"}, {text: "false", s: "false"}, strParam("string"), strParam("@t"),
+			strParam("@e"), strParam(unknownType), strParam("")}
 	case "type":
-		own := map[string]string{"int": "integer", "float": "float", "str": "string", "bool": "boolean", "null": "null",
-			"obj0": "object", "obj": "object", "arr0": "array", "arr": "array", "ref": "integer"}[c.val]
+		own := kindName(c.val)
+		if rt, ok := typeByName(refType(c.val)); ok {
+			own = rt.kind
+		}
 		out := []param{strParam(own)}
-		for _, t := range []string{"integer", "float", "string", "boolean", "null", "object", "array", "any", "decimal", "email", "date", "enum", "mixed", "@t"} {
+		for _, t := range []string{"integer", "float", "string", "boolean", "null", "object", "array", "any", "decimal", "email", "date", "enum", "mixed", "@t",
+			"@e", unknownType, ""} {
 			if t != own {
 				out = append(out, strParam(t))
 			}
@@ -512,19 +639,50 @@ func params(name string, c ctx) []param {
 			mk(`[{enum: [6, true], nullable: true}, "string"]`, oalt{ruleSet: true, enum: true, nullable: true, items: []string{"6", "true"}}, oalt{typ: "string"}),
 			bad(mk(`[{enum: [5, true], min: 1}, "string"]`, oalt{ruleSet: true, enum: true, items: []string{"5", "true"}}, oalt{typ: "string"})),
 			bad(mk(`[{type: "integer", enum: [5]}, "string"]`, oalt{ruleSet: true, enum: true, items: []string{"5"}}, oalt{typ: "string"})),
+			// the degenerate examples and the degenerate lists: one member, no member, a member with an empty enum
+			mk(`["integer", "float", "string"]`, oalt{typ: "integer"}, oalt{typ: "float"}, oalt{typ: "string"}),
+			mk(`[{type: "integer", min: 0}, {type: "float", min: 0}]`, oalt{typ: "integer", ruleSet: true, hasMin: true, min: 0}, oalt{typ: "float", ruleSet: true, hasMin: true, min: 0}),
+			mk(`[{enum: [0, 0.0, ""]}, "boolean"]`, oalt{ruleSet: true, enum: true, items: []string{"0", "0.0", `""`}}, oalt{typ: "boolean"}),
+			mk(`[{enum: []}, "boolean"]`, oalt{ruleSet: true, enum: true, emptyEnum: true}, oalt{typ: "boolean"}),
+			mk(`["string"]`, oalt{typ: "string"}),
+			mk(`[]`),
 		}
 	case "enum":
 		return []param{
-			{text: `[5, 2.25, "a@b.cc", true, null]`, items: []string{"5", "2.25", `"a@b.cc"`, "true", "null"}},
-			{text: `[true, "a@b.cc", 5]`, items: []string{"true", `"a@b.cc"`, "5"}},
+			{text: `[5, 2.25, "a@b.cc", true, null, 0, 0.0, ""]`, items: []string{"5", "2.25", `"a@b.cc"`, "true", "null", "0", "0.0", `""`}},
+			{text: `[true, "a@b.cc", 5, ""]`, items: []string{"true", `"a@b.cc"`, "5", `""`}},
 			{text: `[6, "x", false]`, items: []string{"6", `"x"`, "false"}},
+			{text: `[]`},
 		}
 	case "allOf":
-		return []param{{text: `"@o"`, s: "@o"}, {text: `["@o"]`, s: "@o"}}
+		return allOfParams()
 	case "foo":
 		return []param{{text: "1"}, {text: "true"}, {text: `"x"`}}
 	}
 	panic(name)
+}
+
+// allOfParams: the value of allOf over every shape of the named types, written as a single name or as a list:
+// one parent / several parents; non-empty objects, the empty object, the empty object with a rule, mixed; then the
+// values the statement rejects on every node — a parent that is not an object (scalar, empty array), an unknown
+// parent, the same non-empty parent twice (its keys collide), no parent at all, the empty name.
+// (@ok is in range on the empty object only: its key collides with the key of the `obj` example.)
+func allOfParams() []param {
+	one := func(n string) param { return param{text: `"` + n + `"`, names: []string{n}} }
+	list := func(ns ...string) param {
+		q := make([]string, len(ns))
+		for i, n := range ns {
+			q[i] = `"` + n + `"`
+		}
+		return param{text: "[" + strings.Join(q, ", ") + "]", names: append([]string{}, ns...), list: true}
+	}
+	return []param{
+		one("@o"), list("@o"), one("@e"), list("@e"), one("@e2"), one("@er"), list("@e", "@e2"), list("@e", "@e"),
+		list("@e", "@o"), list("@o2", "@e", "@o"), list("@er", "@e"), list("@o", "@er", "@o2"),
+		one("@oz"), list("@e", "@oz"), one("@ok"), list("@e", "@ok"),
+		list(), one("@t"), list("@t"), list("@e", "@t"), list("@t", "@e"), one("@a"), list("@e", "@a"),
+		one(unknownType), list("@e", unknownType), list(unknownType, "@e"), list("@o", "@o"), list("@o", "@e", "@o"), list("@oz", "@o"), one(""), list("@e", ""),
+	}
 }
 
 func annotation(rs []rl) string {
@@ -541,7 +699,8 @@ func annotation(rs []rl) string {
 
 func kindName(v string) string {
 	return map[string]string{"int": "integer", "float": "float", "str": "string", "bool": "boolean", "null": "null",
-		"obj0": "object", "obj": "object", "arr0": "array", "arr": "array", "ref": "mixed"}[v]
+		"obj0": "object", "obj": "object", "arr0": "array", "arr": "array", "ref": "mixed", "refe": "mixed",
+		"int0": "integer", "float0": "float", "str0": "string"}[v]
 }
 
 func exampleNum(v string) (int64, bool) {
@@ -550,6 +709,8 @@ func exampleNum(v string) (int64, bool) {
 		return 500, true
 	case "float":
 		return 225, true
+	case "int0", "float0":
+		return 0, true
 	}
 	return 0, false
 }
@@ -557,12 +718,12 @@ func exampleNum(v string) (int64, bool) {
 var formatTypes = map[string]bool{"email": true, "uri": true, "uuid": true, "date": true, "datetime": true}
 
 // formatValid: does the string example satisfy the format? (only the formats used as parameters)
-func formatValid(f string) bool {
+func formatValid(f, example string) bool {
 	switch f {
 	case "email":
-		return regexp.MustCompile(`^[^@\s]+@[^@\s]+\.[^@\s]+$`).MatchString(strExample)
+		return regexp.MustCompile(`^[^@\s]+@[^@\s]+\.[^@\s]+$`).MatchString(example)
 	case "date":
-		_, err := time.Parse("2006-01-02", strExample)
+		_, err := time.Parse("2006-01-02", example)
 		return err == nil
 	}
 	return false
@@ -615,6 +776,12 @@ func rulesOK(c ctx, rs []rl) bool {
 	typ := ""
 	if has("type") {
 		typ = m["type"].s
+		if typ == "" { // the empty name is no type
+			return false
+		}
+	}
+	if has("or") && len(m["or"].alts) < 2 { // [C25] a choice has at least two members
+		return false
 	}
 
 	// optional only on object properties [C4]
@@ -624,7 +791,7 @@ func rulesOK(c ctx, rs []rl) bool {
 
 	// --- enum, or, any and type references are not combined with foreign rules ---
 	switch {
-	case c.val == "ref": // a type reference node [C5][C6]
+	case refType(c.val) != "": // a type reference node [C5][C6]
 		if has("or") { // [C20]
 			for _, a := range m["or"].alts {
 				if a.ruleSet || strings.HasPrefix(a.typ, "@") {
@@ -712,7 +879,8 @@ func rulesOK(c ctx, rs []rl) bool {
 		if container { // [C6]
 			return false
 		}
-		return kind == "integer" // [C7] @t = 7
+		t, known := typeByName(typ)
+		return known && kind == t.kind // [C7] @t = 7
 	case typ == "enum" || typ == "mixed": // [C8] need their rule
 		return false
 	}
@@ -726,7 +894,7 @@ func rulesOK(c ctx, rs []rl) bool {
 				return false
 			}
 		case formatTypes[typ]:
-			if kind != "string" || !formatValid(typ) {
+			if kind != "string" || !formatValid(typ, strExampleOf(c.val)) {
 				return false
 			}
 			// format types exclude length / regex rules
@@ -760,8 +928,22 @@ func rulesOK(c ctx, rs []rl) bool {
 			if c.val == "arr0" && p.num != 0 { // [C11]
 				return false
 			}
-		case "additionalProperties", "allOf":
+		case "additionalProperties":
 			if kind != "object" {
+				return false
+			}
+			if !apValueOK(p.s) {
+				return false
+			}
+		case "allOf":
+			if kind != "object" {
+				return false
+			}
+			own := ""
+			if has("additionalProperties") {
+				own = m["additionalProperties"].s
+			}
+			if !allOfOK(c, p.names, own) {
 				return false
 			}
 		case "const": // [C3]
@@ -803,19 +985,19 @@ func rulesOK(c ctx, rs []rl) bool {
 				return false
 			}
 		}
-		if has("precision") && c.val == "float" && m["precision"].num < 2 { // 2.25 has two fraction digits
+		if has("precision") && kind == "float" && m["precision"].num < fracDigits(c.val) { // 2.25 has two fraction digits, 0.0 one
 			return false
 		}
 	}
 	if kind == "string" {
-		l := int64(len(strExample)) // [C14]
+		l := int64(len(strExampleOf(c.val))) // [C14]
 		if has("minLength") && l < m["minLength"].num {
 			return false
 		}
 		if has("maxLength") && l > m["maxLength"].num {
 			return false
 		}
-		if has("regex") && !regexp.MustCompile(m["regex"].s).MatchString(strExample) {
+		if has("regex") && !regexp.MustCompile(m["regex"].s).MatchString(strExampleOf(c.val)) {
 			return false
 		}
 	}
@@ -828,6 +1010,58 @@ func rulesOK(c ctx, rs []rl) bool {
 		}
 	}
 	return true
+}
+
+// apValueOK [C15]: additionalProperties accepts true / false / a JSON type name / the name of a known user type.
+func apValueOK(v string) bool {
+	if strings.HasPrefix(v, "@") {
+		_, ok := typeByName(v)
+		return ok
+	}
+	return v != ""
+}
+
+// allOfOK [C16]: allOf on an object node names at least one type, every named type is known and its root is an
+// object; [C24] what is inherited must fit: the property names of the node and of all the named types are pairwise
+// different (a type named twice collides with itself unless it has no property), and the additionalProperties rules
+// of the node (own) and of the named types all name the same type — true, false and "any" name none and agree with
+// each other (the reading the unchanged tree satisfies: AdditionalProperties.IsEqual compares the named schema type /
+// user type only; the statement is silent about inherited rules).
+func allOfOK(c ctx, names []string, own string) bool {
+	if len(names) == 0 {
+		return false
+	}
+	keys := map[string]bool{}
+	if c.val == "obj" {
+		keys["k"] = true
+	}
+	ap := own
+	for _, n := range names {
+		t, ok := typeByName(n)
+		if !ok || !t.object {
+			return false
+		}
+		for _, k := range t.keys {
+			if keys[k] {
+				return false
+			}
+			keys[k] = true
+		}
+		if t.ap != "" {
+			if ap != "" && apClass(ap) != apClass(t.ap) {
+				return false
+			}
+			ap = t.ap
+		}
+	}
+	return true
+}
+
+func apClass(v string) string {
+	if v == "true" || v == "false" || v == "any" {
+		return "*"
+	}
+	return v
 }
 
 // memberOK is the C08 statement for the rule-set of one `or` member: is the set consistent
@@ -950,9 +1184,9 @@ func randomSpelling(r *rand.Rand) int {
 func memberParams(name string) []param {
 	switch name {
 	case "min":
-		return []param{numParam("1", 100), numParam("5", 500), numParam("2.5", 250), numParam("10", 1000)}
+		return []param{numParam("0", 0), numParam("1", 100), numParam("5", 500), numParam("2.5", 250), numParam("10", 1000)}
 	case "max":
-		return []param{numParam("10", 1000), numParam("5", 500), numParam("2.5", 250), numParam("1", 100)}
+		return []param{numParam("10", 1000), numParam("5", 500), numParam("2.5", 250), numParam("1", 100), numParam("0", 0)}
 	case "exclusiveMinimum", "exclusiveMaximum", "optional", "nullable", "const":
 		return boolParams()
 	case "minLength":
@@ -960,9 +1194,9 @@ func memberParams(name string) []param {
 	case "maxLength":
 		return []param{cntParam(4), cntParam(2), cntParam(0)}
 	case "regex":
-		return []param{strParam("^a"), strParam(".*")}
+		return []param{strParam("^a"), strParam(".*"), strParam("")}
 	case "precision":
-		return []param{cntParam(2), cntParam(1)}
+		return []param{cntParam(2), cntParam(1), cntParam(2), cntParam(0)}
 	case "minItems":
 		return []param{cntParam(0), cntParam(1), cntParam(3)}
 	case "maxItems":
@@ -973,6 +1207,7 @@ func memberParams(name string) []param {
 		return []param{
 			{text: `[5, 2.25, "a@b.cc", true, null]`, items: []string{"5", "2.25", `"a@b.cc"`, "true", "null"}},
 			{text: `[6, "x", false]`, items: []string{"6", `"x"`, "false"}},
+			{text: `[]`},
 		}
 	case "foo":
 		return []param{{text: "1"}, {text: "true"}}
@@ -1111,8 +1346,8 @@ func genMember(r *rand.Rand) member {
 // The value is consistent iff every generated member is (memberOK).
 func genOr(r *rand.Rand, c ctx) param {
 	kind := kindName(c.val)
-	if c.val == "ref" {
-		kind = "integer"
+	if rt, ok := typeByName(refType(c.val)); ok {
+		kind = rt.kind
 	}
 	anchor := member{bare: kind}
 	if r.Intn(2) == 0 {
@@ -1150,7 +1385,7 @@ func genOr(r *rand.Rand, c ctx) param {
 
 // memberCase: a case of the generated-`or` stream: the `or` rule plus (sometimes) its companions.
 func memberCase(r *rand.Rand) rcase {
-	vals := []string{"int", "float", "str", "bool", "null", "obj0", "arr0"}
+	vals := []string{"int", "float", "str", "bool", "null", "obj0", "arr0", "int0", "float0", "str0"}
 	c := ctx{positions[r.Intn(3)], vals[r.Intn(len(vals))]}
 	if r.Intn(12) == 0 {
 		c.val = values[r.Intn(len(values))]
@@ -1223,6 +1458,49 @@ func nearMissStream() []rcase {
 	return out
 }
 
+// cellStream: the applicability matrix with a companion. The single-rule stream holds every cell (rule x parameter
+// x node kind x position) alone; here every cell stands next to ONE rule that is legal on every node and decides
+// nothing — nullable: true / false, const: false, the node's own type, optional on a property — so that the verdict
+// of the cell is also observed when the annotation holds something else (both orders). The companions rotate over the
+// cells; the cells of allOf (every shape of the named types) get all of them.
+func cellStream() []rcase {
+	var out []rcase
+	k := 0
+	for _, pos := range positions {
+		for _, v := range values {
+			c := ctx{pos, v}
+			comps := []rl{
+				{name: "nullable", p: boolParams()[0]},
+				{name: "nullable", p: boolParams()[1]},
+				{name: "const", p: boolParams()[1]},
+				{name: "type", p: params("type", c)[0]},
+			}
+			if pos == "prop" {
+				comps = append(comps, rl{name: "optional", p: boolParams()[0]}, rl{name: "optional", p: boolParams()[1]})
+			}
+			for _, n := range ruleNames {
+				for _, pa := range params(n, c) {
+					for i, cp := range comps {
+						if n != "allOf" && i != k%len(comps) {
+							continue
+						}
+						if cp.name == n {
+							continue
+						}
+						if k%2 == 0 {
+							out = append(out, rcase{c, []rl{{name: n, p: pa}, cp}})
+						} else {
+							out = append(out, rcase{c, []rl{cp, {name: n, p: pa}}})
+						}
+					}
+					k++
+				}
+			}
+		}
+	}
+	return out
+}
+
 // ---------------------------------------------------------------------------
 // running the library
 // ---------------------------------------------------------------------------
@@ -1253,14 +1531,7 @@ func newSchema(text string, opt bool) *js.Schema {
 }
 
 // usesTypes: does the schema text refer to one of the added types?
-func usesTypes(text string) bool {
-	for _, t := range addedTypes {
-		if strings.Contains(text, t[0]) {
-			return true
-		}
-	}
-	return false
-}
+func usesTypes(text string) bool { return len(namedTypes(text)) > 0 }
 
 func withDeadline(f func() verdict) verdict {
 	ch := make(chan verdict, 1)
@@ -1285,15 +1556,13 @@ func withDeadline(f func() verdict) verdict {
 }
 
 // check: the verdict of Check() on a FRESH schema object created with / without the option
-// KeysAreOptionalByDefault. The types @t / @o are added first only when the text refers to them
+// KeysAreOptionalByDefault. The types of the table that the text names are added first
 // (there is no other way to supply them); the verdict is the return value of Check alone.
 func check(text string, opt bool) verdict {
 	return withDeadline(func() verdict {
 		s := newSchema(text, opt)
-		if usesTypes(text) {
-			for _, t := range addedTypes {
-				_ = s.AddType(t[0], js.New(t[0], t[1]))
-			}
+		for _, t := range namedTypes(text) {
+			_ = s.AddType(t.name, js.New(t.name, t.text))
 		}
 		return verdictOf(s.Check())
 	})
@@ -1312,6 +1581,7 @@ const (
 	opAddUnrelated  // AddType("@u", …): a type the schema does not refer to
 	opAddT          // AddType("@t", …)
 	opAddO          // AddType("@o", …)
+	opAddNamed      // AddType of every other type of the table that the text names
 	opLen
 	opGetAST
 	opExample
@@ -1321,7 +1591,7 @@ const (
 	nOps
 )
 
-var opNames = []string{"UsedUserTypes()", `AddType("@u", New("@u", "u" in quotes))`, `AddType("@t", …)`, `AddType("@o", …)`, "Len()", "GetAST()", "Example()", "Check()",
+var opNames = []string{"UsedUserTypes()", `AddType("@u", New("@u", "u" in quotes))`, `AddType("@t", …)`, `AddType("@o", …)`, "AddType(every other TYPE listed above)", "Len()", "GetAST()", "Example()", "Check()",
 	`Validate(json "1")`, "Build()"}
 
 // randomHistory: 1-5 calls. Calls that compile the schema (GetAST, Example, Check, Validate, Build) come
@@ -1330,7 +1600,7 @@ var opNames = []string{"UsedUserTypes()", `AddType("@u", New("@u", "u" in quotes
 func randomHistory(r *rand.Rand, text string) []int {
 	var pre []int
 	if usesTypes(text) || r.Intn(3) == 0 {
-		pre = append(pre, opAddT, opAddO)
+		pre = append(pre, opAddT, opAddO, opAddNamed)
 	}
 	for k := r.Intn(3); k > 0; k-- {
 		pre = append(pre, []int{opUsedUserTypes, opAddUnrelated, opLen, opUsedUserTypes, opAddUnrelated}[r.Intn(5)])
@@ -1371,9 +1641,15 @@ func checkHistory(text string, opt bool, h []int) (verdict, string) {
 			case opAddUnrelated:
 				_ = s.AddType("@u", js.New("@u", `"u"`))
 			case opAddT:
-				_ = s.AddType(addedTypes[0][0], js.New(addedTypes[0][0], addedTypes[0][1]))
+				_ = s.AddType(addedTypes[0].name, js.New(addedTypes[0].name, addedTypes[0].text))
 			case opAddO:
-				_ = s.AddType(addedTypes[1][0], js.New(addedTypes[1][0], addedTypes[1][1]))
+				_ = s.AddType(addedTypes[1].name, js.New(addedTypes[1].name, addedTypes[1].text))
+			case opAddNamed:
+				for _, t := range namedTypes(text) {
+					if t.name != addedTypes[0].name && t.name != addedTypes[1].name {
+						_ = s.AddType(t.name, js.New(t.name, t.text))
+					}
+				}
 			case opLen:
 				_, _ = s.Len()
 			case opGetAST:
@@ -1412,11 +1688,11 @@ type rcase struct {
 
 func relevant(c ctx) []string {
 	switch c.val {
-	case "int":
+	case "int", "int0":
 		return []string{"min", "max", "exclusiveMinimum", "exclusiveMaximum", "type", "const", "nullable", "optional", "enum", "or"}
-	case "float":
+	case "float", "float0":
 		return []string{"min", "max", "exclusiveMinimum", "exclusiveMaximum", "type", "precision", "const", "nullable", "optional", "enum", "or"}
-	case "str":
+	case "str", "str0":
 		return []string{"minLength", "maxLength", "regex", "type", "const", "nullable", "optional", "enum", "or"}
 	case "bool", "null":
 		return []string{"type", "const", "nullable", "optional", "enum", "or"}
@@ -1564,7 +1840,8 @@ func permsFor(r *rand.Rand, n int) [][]int {
 // either a type: "@t" or a repeated type rule among them. (MixedValueNode.addTypeConstraint
 // lets a `type` rule replace the existing one instead of applying the duplicate check.)
 func knownRefTypeOr(rc rcase) string {
-	if rc.c.val != "ref" {
+	own := refType(rc.c.val)
+	if own == "" {
 		return ""
 	}
 	hasOr, ownType, nType := false, false, 0
@@ -1584,10 +1861,10 @@ func knownRefTypeOr(rc rcase) string {
 			}
 			hasOr = true
 		case "type":
-			if r.p.s != "@t" && r.p.s != "mixed" {
+			if r.p.s != own && r.p.s != "mixed" {
 				return ""
 			}
-			if r.p.s == "@t" {
+			if r.p.s == own {
 				ownType = true
 			}
 			nType++
@@ -1643,10 +1920,8 @@ func replay(c ctx, text string, opt bool) string {
 	if opt {
 		sb.WriteString("\nOPTION: jschema.KeysAreOptionalByDefault()")
 	}
-	if usesTypes(text) {
-		for _, t := range addedTypes {
-			sb.WriteString("\nTYPE " + t[0] + " =\n" + t[1])
-		}
+	for _, t := range namedTypes(text) {
+		sb.WriteString("\nTYPE " + t.name + " =\n" + t.text)
 	}
 	sb.WriteString(fmt.Sprintf("\n(context %s/%s)", c.pos, c.val))
 	return sb.String()
@@ -1865,9 +2140,10 @@ func evalCase(r *rand.Rand, rc rcase) outcome {
 	return o
 }
 
-const ruleText = "node contexts {root, object property, array item} x {integer, float, string, boolean, null, empty object, object, empty array, array, `@t` reference} x rule sets over 19 rule names " +
-	"(15 literal rules + or + enum + allOf + an unknown name) with 2-14 parameter choices each (in-range, boundary, out-of-range relative to the example; false-valued booleans; ordered/equal/reversed pairs); " +
-	"quick: all single rules x all parameters x all contexts, sampled sets of size 2-3 (60% drawn from the rules relevant to the node kind), sampled sets with one duplicated rule; " +
+const ruleText = "node contexts {root, object property, array item} x {integer, float, string, boolean, null, empty object, object, empty array, array, `@t` reference, and the degenerate examples 0, 0.0, \"\", `@e` = reference to the empty object type} x rule sets over 19 rule names " +
+	"(15 literal rules + or + enum + allOf + an unknown name) with 2-31 parameter choices each (in-range, boundary, out-of-range relative to the example; false-valued booleans; ordered/equal/reversed pairs; " +
+	"degenerate values: zero bounds, empty pattern, empty lists, empty names; allOf over every shape of the named types: non-empty / empty / empty-with-a-rule / empty-but-inheriting objects, several mixed, one twice, scalar, empty array, unknown, none); " +
+	"quick: all single rules x all parameters x all contexts, the same cells next to one rule that decides nothing (nullable, const: false, own type, optional on a property; allOf with all of them), sampled sets of size 2-3 (60% drawn from the rules relevant to the node kind), sampled sets with one duplicated rule; " +
 	"thorough: also sizes 4-6 and random larger; every set is checked in ALL orderings (<=4 rules) or 24 sampled orderings; " +
 	"rule names spelled bare, quoted, quoted with JSON escapes or mixed, also inside or rule-sets; near-miss names (17 ways to write a name that is not the rule: inner blanks, case, junk/missing/doubled letter, escaped blank/tab, escape in a bare name, empty, quoted twice) " +
 	"for every rule name in an otherwise accepted set and on 8% of the sampled sets; generated or values = anchor member of the example's kind + 1-2 rule-set members over the companion matrix (pairs, exclusive flags, precision/decimal, format types, any/@t/enum with foreign rules, unknown/near-miss/duplicated/misplaced rules), member rules reordered too; " +
@@ -1879,6 +2155,12 @@ func Run(args []string) {
 	rep := vh.NewReport("c08-rules", ruleText)
 	debug.SetGCPercent(400) // many short-lived schema objects: the collector otherwise takes a quarter of the run
 	dump := len(args) > 0 && args[0] == "dump"
+	if len(args) > 1 && args[0] == "probe" { // replay by hand: vh c08-rules probe '<schema text>' …
+		for _, text := range args[1:] {
+			fmt.Printf("%q: %s | with KeysAreOptionalByDefault: %s\n", text, check(text, false).text, check(text, true).text)
+		}
+		return
+	}
 
 	type job struct {
 		i  int
@@ -1892,9 +2174,9 @@ func Run(args []string) {
 		workers = 16
 	}
 	thorough := vh.Tier() == "thorough"
-	nRandom := vh.Pick(28000, 800000)
-	nDup := vh.Pick(3000, 60000)
-	nMember := vh.Pick(8000, 150000)
+	nRandom := vh.Pick(34000, 1000000)
+	nDup := vh.Pick(3600, 72000)
+	nMember := vh.Pick(9000, 170000)
 	gen := func(i int) rcase {
 		r := vh.NewRand((8_000_000_011 + int64(i)) * 2000029)
 		if i >= nRandom+nDup {
@@ -1958,6 +2240,11 @@ func Run(args []string) {
 			k++
 		}
 		for _, rc := range nearMissStream() {
+			rc := rc
+			jobs <- job{-1 - k, &rc}
+			k++
+		}
+		for _, rc := range cellStream() {
 			rc := rc
 			jobs <- job{-1 - k, &rc}
 			k++
